@@ -140,9 +140,9 @@ def run_case(c, AM, uid):
     AM.DISABLED = not c["mode"]
     del AM.instances[:]
     R = type("InjRobot%d" % uid, (magicbot.MagicRobot,), rns)
-    r = R()
-    ROBOT[0] = r
     try:
+        r = R()
+        ROBOT[0] = r
         r.robotInit()
     except Exception as e:  # noqa
         return {"ok": False, "error": type(e).__name__, "msg": str(e)[:200], "setup_calls": witness["setup_calls"]}
